@@ -30,7 +30,7 @@ def main():
         # install the demo
         demos = []
         ddir = os.path.join(mdir, "demo")
-        standalone = os.path.exists(os.path.join(ddir, "go.mod"))
+        standalone = os.path.exists(os.path.join(ddir, "go.mod")) and "replace" in open(os.path.join(ddir, "go.mod")).read()
         if standalone:
             dst = os.path.join(wt, "_demo")
             shutil.copytree(ddir, dst)
@@ -40,9 +40,13 @@ def main():
             shutil.copy(os.path.join(wt, "go.sum"), os.path.join(dst, "go.sum"))
             democmd = "cd %s && (go test -vet=off -count=1 ./... 2>&1 || exit 1; ls *.go | grep -qv _test.go && go run . || true)" % dst
         else:
+            names = []
+            tags = []
             for f in os.listdir(ddir):
                 if f.endswith(".go"):
                     src = open(os.path.join(ddir, f)).read()
+                    names += re.findall(r"^func (Test\w+)\(", src, re.M)
+                    tags += re.findall(r"^//go:build (\w+)\s*$", src, re.M)
                     m = re.search(r"^package\s+(\w+)", src, re.M)
                     pkg = m.group(1) if m else "snaps"
                     d = {"snaps": "snaps", "snaps_test": "snaps", "match": "match", "match_test": "match",
@@ -50,7 +54,7 @@ def main():
                     shutil.copy(os.path.join(ddir, f), os.path.join(wt, d, f))
                     demos.append(d)
             pk = " ".join("./" + d for d in sorted(set(demos)))
-            democmd = "go test -vet=off -count=1 %s" % pk
+            democmd = "go test -vet=off -count=1 %s -run '^(%s)$' %s" % (("-tags " + ",".join(tags)) if tags else "", "|".join(names), pk)
         rc, out = sh(democmd, cwd=wt)
         res["confirm"]["demo_fails_with_patch"] = rc != 0
         sh("git apply -R %s" % patch, cwd=wt)
